@@ -54,7 +54,8 @@ def _compare_split(root, data, sites, seen, ctx, compressed=False):
             seen.setdefault("split:reader", "%s: shank %d file read back through the reader differs from the original columns (shape %r vs %r)" % (ctx, sh, got.shape, exp.shape))
         # metadata of the shank file
         nch = exp.shape[1]
-        if int(meta.get("nSavedChans", -1)) != nch or [int(v) for v in meta.get("snsApLfSy", [])] != [nch - 1, 0, 1] or tuple(shape) != exp.shape:
+        if int(meta.get("nSavedChans", -1)) != nch or [int(v) for v in meta.get("snsApLfSy", [])] != [nch - 1, 0, 1] or tuple(shape) != exp.shape \
+                or [int(v) for v in meta.get("acqApLfSy", [])][1:] != [0, 1]:
             seen.setdefault("split:meta", "%s: shank %d metadata does not describe the file: nSavedChans=%r snsApLfSy=%r shape=%r, content %r"
                             % (ctx, sh, meta.get("nSavedChans"), meta.get("snsApLfSy"), shape, exp.shape))
         if int(meta.get("NP2.4_shank", -1)) != sh or int(meta.get("fileSizeBytes", -1)) != exp.size * 2:
@@ -251,6 +252,42 @@ def cbin_check(case):
     return Res(list(seen.items()), o=(rec_compress, src), tr=2)
 
 
+# ------------------------------------------------------------------ forced re-runs
+def rerun_cases(tier, seed):
+    return [(a, same, pc) for a in ([0, 1, 2, 3, 3, 0], [1, 3, 3, 1, 1, 3], [2, 2, 2, 2, 2, 2]) for same in (True, False) for pc in (True, False)]
+
+
+def rerun_check(case):
+    assign, same_object, post_check = case
+    root = os.path.join(synth.proc_scratch(), "c03r")
+    np2.clean(root)
+    sites = np2.sites_for(assign)
+    data = np2.content(1500, 7, "ramp")
+    ap = np2.make_session(root, "NP2.4", sites, data)
+    orig_sha = np2.sha1(ap)
+    orig_meta = spikeglx.read_meta_data(ap.with_suffix(".meta"))
+    seen = {}
+    ctx = "shank map %r, split then forced re-split (%s converter object, post_check=%s)" % (assign, "same" if same_object else "fresh", post_check)
+    try:
+        conv = neuropixel.NP2Converter(ap, post_check=post_check, compress=False)
+        conv.init_params(nwindow=600)
+        st1 = conv.process()
+        if not same_object:
+            conv.sr.close()
+            conv = neuropixel.NP2Converter(ap, post_check=post_check, compress=False)
+            conv.init_params(nwindow=600)
+        st2 = conv.process(overwrite=True)
+        conv.sr.close()
+        if (st1, st2) != (1, 1):
+            seen.setdefault("rerun:status", "%s: statuses %r" % (ctx, (st1, st2)))
+        _compare_split(root, data, sites, seen, ctx)
+        _reconstruct_and_compare(root, orig_sha, orig_meta, seen, ctx)
+    except Exception as e:
+        seen.setdefault("rerun:exc:%s" % type(e).__name__, "%s: raised %s: %s" % (ctx, type(e).__name__, e))
+    shutil.rmtree(root, ignore_errors=True)
+    return Res(list(seen.items()), o=(same_object, post_check), tr=3)
+
+
 # ------------------------------------------------------------------ recordings longer than the reconstructor's window
 def long_cases(tier, seed):
     nss = (60000, 60001, 67000, 120000) if tier == "quick" else (59999, 60000, 60001, 60012, 67000, 119999, 120000, 120001, 125000, 180011)
@@ -297,6 +334,7 @@ CHECK = {
         Clause("shank-maps", "all 4^6 shank maps, split + reconstruct", cases=map_cases, check=map_check),
         Clause("windows", "window sizes x recording lengths", cases=window_cases, check=window_check),
         Clause("compressed", "compressed source / compressed shank files / compressed reconstruction", cases=cbin_cases, check=cbin_check),
+        Clause("rerun", "split followed by a forced re-split on the same / a fresh converter object", cases=rerun_cases, check=rerun_check),
         Clause("long", "recordings around and beyond the 60000-sample default windows of converter and reconstructor", cases=long_cases, check=long_check),
     ],
 }
